@@ -3,7 +3,7 @@ From LV Require Import Base Toml FS LayerEnv LayerShared LayerEnvFS SpecDocs Lay
 From LV.Checks Require Import C01Hold C01Agree.
 From LVGen Require Import GenLayerShared.
 From LVGen Require GenLayerSharedImp.
-From LV Require LayerSboms LayerSbomsFacts LayerSharedFacts WriteLayerFacts ReplaceMetaFacts Determinism.
+From LV Require LayerSboms LayerSbomsFacts LayerSharedFacts LayerSharedGone LayerSharedTotal WriteLayerFacts ReplaceMetaFacts RecreateFacts Determinism.
 From Coq Require Import String.
 Open Scope string_scope.
 Open Scope N_scope.
@@ -226,3 +226,30 @@ Theorem c01_keep_unparsable_is_error :
       LVGen.GenLayerSharedImp.gen_replace_layer_types parse enc layers n ty s = (s, Err EINVAL).
 Proof. intros Ty Md parse enc layers n V. exact (LV.ReplaceMetaFacts.replace_layer_types_unparsable parse enc layers n V). Qed.
 Print Assumptions c01_keep_unparsable_is_error.
+
+(* ---- recreating a layer as the code does it -- delete_layer, then write_layer, both as regenerated from the
+   source -- whatever the old layer held (any tree below it with any permissions and symbolic links, the layer
+   path itself a link, stale TOML and SBOM files or links in their place): the deletion succeeds and leaves
+   NOTHING the layer owns (no entry at or below its directory, no <name>.toml, no SBOM file of any format),
+   every path that does not belong to the layer is as it was, and writing the layer then yields exactly that
+   state plus a fresh directory and a fresh content-metadata document.  "A layer reported as empty has no
+   files, metadata, environment or SBOMs left over from any earlier build, and other layers are untouched"
+   at the level of the file system.  (Hypotheses: those of c11_delete_layer_complete, shown satisfiable by a
+   hostile tree there, and a searchable writable layers directory.) *)
+Theorem c01_recreate_exact :
+  forall (T : Type) (enc : T -> tv) (lcm : T) layers n s,
+    LV.LayerSharedFacts.valid_path layers -> LV.FSFacts.valid_name n = true ->
+    LV.LayerSharedFacts.valid_fs s -> LV.LayerSharedGone.parent_closed s -> LV.LayerSharedTotal.layers_ok s layers ->
+    LV.Determinism.simple_dir s layers ->
+    (pget (layers ++ [n]) s = None \/ (exists m, pget (layers ++ [n]) s = Some (Dir m)) \/ (exists t, pget (layers ++ [n]) s = Some (Link t))) ->
+    (forall m, pget (layers ++ [toml_name n]) s <> Some (Dir m)) ->
+    (forall sx m, In sx (map LV.LayerSbomsFacts.sbom_suffix_of LVGen.GenLayerSharedImp.SBOM_FORMATS) -> pget (layers ++ [sbom_name n sx]) s <> Some (Dir m)) ->
+    exists s1,
+      LVGen.GenLayerSharedImp.gen_delete_layer layers n s = (s1, Ok tt) /\
+      LVGen.GenLayerSharedImp.gen_write_layer enc layers n lcm s1 =
+        (pset (layers ++ [toml_name n]) (File mode_file_default (Doc (enc lcm))) (pset (layers ++ [n]) (Dir mode_dir_default) s1), Ok tt) /\
+      (forall r, pget (layers ++ [n] ++ r) s1 = None) /\ pget (layers ++ [toml_name n]) s1 = None /\
+      (forall sx, In sx (map LV.LayerSbomsFacts.sbom_suffix_of LVGen.GenLayerSharedImp.SBOM_FORMATS) -> pget (layers ++ [sbom_name n sx]) s1 = None) /\
+      (forall q, owned (map LV.LayerSbomsFacts.sbom_suffix_of LVGen.GenLayerSharedImp.SBOM_FORMATS) layers n q = false -> pget q s1 = pget q s).
+Proof. intros T enc lcm layers n s. exact (LV.RecreateFacts.recreate_exact enc lcm layers n s). Qed.
+Print Assumptions c01_recreate_exact.
